@@ -124,6 +124,12 @@ def check_strings(case, rec):
         exact = O.pc_exact(seqs) if seqs2 is None else O.pc_cross_exact(seqs, seqs2)
         if not close(p0, exact, 1e-12):
             raise Violation("bins0-value", f"pcDelta(bins=0) = {p0!r}, exact {exact}")
+        # a maxseqs that does not bind (>= both sizes) samples nothing: still pc of the same arguments.  (A binding maxseqs with
+        # bins=0 is not asserted: "pc of the same arguments" and "the result of a random sub-sample" are both stated and differ.)
+        big = max(len(seqs), len(seqs2) if seqs2 is not None else 0) + len(seqs) % 3
+        p0m = call("pcDelta0", pyrepseq.pcDelta, a, b, bins=0, maxseqs=big)
+        if not close(p0m, exact, 1e-12):
+            raise Violation("bins0-maxseqs-not-binding", f"pcDelta(bins=0, maxseqs={big}) = {p0m!r} on {len(seqs)} sequences, exact {exact}")
         raw = call("pcDelta-raw", pyrepseq.pcDelta, a, b, bins=[0, 1, 2], normalize=False)
         if seqs2 is None:
             zero = sum(v * (v - 1) // 2 for v in Counter(seqs).values())
